@@ -34,6 +34,9 @@ ASSUMPTIONS = [
 U23 = 2.0 ** -23
 
 BIG = {"big123": 123.456, "big1000": 1000.123, "big20000": 20000.7, "big5e5": 500000.3}
+# (coordinate magnitude, separation of the junction points): many float32 steps apart, far below any relative tolerance a
+# careless comparison would use (numpy's allclose default is 1e-5 x magnitude)
+NEAR = {"near1": (1.0, 0.0625), "near8192": (8192.0, 0.0625), "near262144": (262144.0, 0.5)}
 
 
 # ------------------------------------------------------------------ attributes and geometry
@@ -74,6 +77,12 @@ def geometry(variant, nA, nB, seed):
         return [bits(i) for i in range(nA)], [bits(bperm[j]) for j in range(nB)]
     if variant == "dup":
         return [(float(i // 2), 0.0, 0.0) for i in range(nA)], [(float(j // 2), 0.0, 0.0) for j in range(nB)]
+    if variant.startswith("near"):
+        # distinct junction points a small but representable step apart (set in check_cat): NOT coincident at any coordinate magnitude
+        M = NEAR[variant][0]
+        oa = (M, 0.5 * M, -0.25 * M)
+        q32 = lambda v: build.f32(round(v * 16) / 16)  # noqa: E731 - sixteenths: exact in float32 up to 2^19
+        return [tuple(q32(oa[c] + q[c]) for c in range(3)) for q in ga], [tuple(q32(oa[c] + q[c] + 40.0) for c in range(3)) for q in gb]
     M = BIG[variant]
     oa = (M, 0.7 * M, -1.3 * M)
     ob = (-0.9 * M + 3.3, 2.1 * M, 7.77 + 0.3 * M)
@@ -244,6 +253,29 @@ def check_redirect(case, R):
                             R.outcome("r2", tuple(g2[0]))
 
 
+    # the same tree after it has been looked at (children, branches, paths, length ...): re-rooting an inspected tree gives the same
+    # results, and the result describes ITSELF (its handles / branches / paths follow its own parent column)
+    build.query_report(t)
+    R.attempt(t.get_neurites)
+    for k in range(n):
+        for srt in (True, False):
+            ok, out = R.impl("redirect_tree", redirect_tree, t, k, srt, klass="raises:redirect_tree:inspected-input")
+            if not ok:
+                continue
+            judge("redirect_tree(inspected tree)", out, p, src, 0, k, srt)
+            if srt:
+                probs = build.query_report(out)
+                R.check(not probs, "redirect:result-contradicts-its-own-table", lambda: f"p={p} k={k}: re-rooted copy of an inspected tree: {probs}",
+                        "redirect:result-contradicts-its-own-table")
+            else:
+                ok2, ch_ = R.impl("children of the new root", lambda: sorted(int(c.id) for c in out.node(k).children()))
+                if ok2:
+                    want = sorted(i for i, q in enumerate(int(v) for v in out.pid().tolist()) if q == k)
+                    R.check(ch_ == want, "redirect:result-contradicts-its-own-table", lambda: f"p={p} k={k} sort=False: node({k}).children() {ch_}, parent column says {want}",
+                            "redirect:result-contradicts-its-own-table")
+    R.check(build.snapshot(t) == snap, "redirect:input-modified", f"p={p} (inspected)", "redirect:input-modified")
+
+
 # ------------------------------------------------------------------ cat
 
 
@@ -253,7 +285,7 @@ def expected_cat(A, B, node1, node2, translate):
     coincident = tuple(A["xyz"][node1]) == tuple(B["xyz"][node2])
     if not translate and not coincident:
         d = ref.dist(A["xyz"][node1], B["xyz"][node2])
-        assert d >= 0.5, f"harness: junction separation {d} inside the unspecified zone"
+        assert d >= 0.05, f"harness: junction separation {d} inside the unspecified zone"
     merged = translate or coincident
     q = ref.reroot(pB, node2)
     nodes = [("A", i) for i in range(len(pA))] + [("B", j) for j in range(len(pB)) if not (merged and j == node2)]
@@ -314,15 +346,27 @@ def check_cat(case, R):
         for node2 in range(nB):
             if not self_pair:
                 xb = coincide(xa0, xb0, node1, node2) if variant == "coin" else xb0
+                if variant.startswith("near"):
+                    xb = coincide(xa0, xb0, node1, node2)
+                    sep = NEAR[variant][1]
+                    xb = [tuple(build.f32(q[c] + (sep if c == 0 else 0.0)) for c in range(3)) for q in xb]
+                    assert xb[node2][0] - xa0[node1][0] == sep and xb[node2][1:] == tuple(xa0[node1][1:]), "harness: near-coincident placement is not exact"
                 B = {"p": pB, "type": b_types(nB), "r": b_r(nB), "xyz": xb}
                 tB = mk(pB, B["type"], xb, B["r"], exB)
                 snapB = build.snapshot(tB)
                 colsB = cols_of(tB)
-            for mname, kw in modes:
+            inspected = [("", False)] + ([(" on trees that were inspected before", True)] if variant in ("gen", "coin") and extras_mode == "none" else [])
+            for mname, kw in [(m_ + tag, dict(k_, _warm=w_)) for m_, k_ in modes for tag, w_ in inspected]:
+                warm_first = kw.pop("_warm")
                 translate = kw.get("translate", not kw.get("no_move", False))
                 if variant == "coin" and translate:
                     continue  # identical to 'gen' with translation up to rounding; covered there
-                ok, out = R.impl("cat_tree", lambda: cat_tree(tA, tB, node1, node2, **kw))
+                if warm_first:
+                    # the trees have been looked at (children, branches, paths, neurites, length ...) before they are joined
+                    for tt in ((tA,) if self_pair else (tA, tB)):
+                        build.query_report(tt)
+                        R.attempt(tt.get_neurites)
+                ok, out = R.impl("cat_tree", lambda: cat_tree(tA, tB, node1, node2, **kw), klass="raises:cat_tree:inspected-inputs" if warm_first else None)
                 if not ok:
                     continue
                 what = f"cat_tree(A={pA}, B={'A itself' if self_pair else pB}, node1={node1}, node2={node2}, {mname}, geometry={variant}, extras={extras_mode})"
@@ -595,6 +639,7 @@ def spaces(tier, seed):
     big = ["big123", "big1000", "big20000"] if quick else list(BIG)
     variants = [("gen", "none"), ("gen", "A"), ("gen", "both"), ("gen", "B"), ("coin", "none"), ("lat", "none"), ("dup", "none")]
     variants += [(b, "none") for b in big]
+    variants += [(v, "none") for v in NEAR]
     if not quick:
         variants += [("coin", "both"), ("lat", "both"), ("big1000", "both")]
 
